@@ -69,7 +69,7 @@ REVIEWED_GLOBAL = {
 }
 
 
-def check(run, P):
+def _check_main(run, P):
     run.rule("C15.unordered",
              "no iteration over an order-tainted value reaches emission, name/id "
              "allocation, the lowering's result order or the phase map",
@@ -649,3 +649,9 @@ def _alias_feeds(P, c: Class, meth: Func, pname):
     return feeds
 
 # }}}
+
+
+def check(run, P):
+    _check_main(run, P)
+    from . import generic
+    generic.lints(run, P, "C15")
